@@ -57,7 +57,16 @@ def main(argv):
                 mod = load_program(text, scratch, tag=f"s{si}")
                 sess = Session(mod, s["root"], text)
                 dig["strs"].append(sha(str(sess.cur)))
-                for st in s["steps"]:
+                for sti, st in enumerate(s["steps"]):
+                    if variant.get("sym_boundary"):
+                        # the user defines other procedures between two scheduling calls: the symbol
+                        # counter passes a power of ten among the symbols the next step creates
+                        import random as _r
+
+                        rr = _r.Random(f"{variant.get('sym_boundary')}:{si}:{sti}")
+                        if rr.random() < 0.6:
+                            nxt = 10 ** len(str(Sym._unq_count))
+                            Sym._unq_count = max(Sym._unq_count, nxt - rr.randrange(0, 14))
                     r = apply_step(sess, st)
                     if r.status == "accepted":
                         dig["steps"].append("A")
